@@ -414,7 +414,8 @@ def _eol(rng, style: Style) -> str:
     if style.spacing == 'wild' and rng.random() < 0.3:
         s += rng.choice(_WILD)
     if style.comments and rng.random() < 0.4:
-        s += ' ' + rng.choice(COMMENTS)
+        # a comment may follow the last token directly
+        s += rng.choice([' ', ' ', '']) + rng.choice(COMMENTS)
     return s
 
 
@@ -448,7 +449,8 @@ MUTATIONS = (
     'double-or', 'drop-close-paren', 'drop-open-paren', 'or-on-right',
     'suicide-on-left', 'empty-operand-before-arrow', 'empty-operand-in-parens',
     'empty-operand-double-operator', 'missing-operator', 'empty-parens-left',
-    'empty-parens-right', 'dangling-operator',
+    'empty-parens-right', 'dangling-operator', 'bad-node-double-optional',
+    'bad-node-double-qualifier', 'bad-node-unclosed-offset',
 )
 
 
@@ -551,6 +553,17 @@ def mutate(tokens: Sequence[str], kind: str, rng) -> Optional[str]:
         return join(toks + [AND, LPAR, RPAR])
     if kind == 'dangling-operator':
         return join(toks + [rng.choice([AND, OR])])
+    if kind.startswith('bad-node-'):
+        idx = [i for i, t in enumerate(toks) if is_node(t)]
+        i = rng.choice(idx)
+        bare = toks[i].rstrip('?')
+        if kind == 'bad-node-double-optional':
+            toks[i] = bare + '??'
+        elif kind == 'bad-node-double-qualifier':
+            toks[i] = (bare if ':' in bare else bare + ':x') + ':y'
+        else:
+            toks[i] = bare.split('[')[0].split(':')[0] + '[-P1'
+        return join(toks)
     raise ValueError(kind)
 
 
